@@ -3704,8 +3704,9 @@ class Score(object):
         self.parts[index] = part
 
     def __iter__(self) -> Iterator[Part]:
-        self.iter_idx = 0
-        return self
+        # a fresh iterator per call: nested or interleaved loops over the same
+        # score must not share one cursor stored on the score
+        return iter(self.parts)
 
     def __next__(self) -> Part:
         if self.iter_idx == len(self.parts):
